@@ -89,3 +89,82 @@ Proof.
   exists s. split; [lia|]. unfold type_mismatch, sender_flag. rewrite Hss.
   destruct (s mod (d + p) <? d), (s mod (d_data st + d_parity st) <? d_data st); try reflexivity; congruence.
 Qed.
+
+(* ------------------------------------------------------------ the tuning branch of decode *)
+
+(* while tuning (flag set, or this packet fails the type test) decode stores nothing and runs the
+   period search on the ring that already contains this packet's sample *)
+Lemma decode_tuning_step mk st pkt :
+  c_fecHeaderSize <= blen pkt -> pk_seqid pkt < d_paws st ->
+  d_should st || type_mismatch st (pk_seqid pkt) (pk_flag pkt) = true ->
+  dec_decode mk st pkt =
+    Ok (dec_retune (set_at st (at_sample (d_at st) (pk_flag pkt =? c_typeData) (pk_seqid pkt))), []).
+Proof.
+  intros Hlen Hp Hs. unfold dec_decode.
+  destruct (blen pkt <? c_fecHeaderSize) eqn:E; [apply Z.ltb_lt in E; lia|].
+  set (st1 := set_at st _).
+  replace (d_paws st1) with (d_paws st) by reflexivity.
+  destruct (d_paws st <=? pk_seqid pkt) eqn:Ew; [apply Z.leb_le in Ew; lia|].
+  replace (d_should st1) with (d_should st) by reflexivity.
+  replace (type_mismatch st1 (pk_seqid pkt) (pk_flag pkt)) with (type_mismatch st (pk_seqid pkt) (pk_flag pkt)) by reflexivity.
+  rewrite Hs. reflexivity.
+Qed.
+
+Definition has_cfg (st : fecdec) (d p : Z) : Prop :=
+  d_data st = d /\ d_parity st = p /\ d_size st = d + p /\ d_paws st = paws_of (d + p).
+
+(* SOUND: on a ring holding samples of one d/p sender a tuning step either leaves the ratio alone
+   or adopts exactly d/p (and then decoding is enabled with an empty group table) *)
+Lemma retune_sound d p st :
+  0 < d -> 0 < p -> Forall (consistent d p) (at_window (d_at st)) ->
+  (d_data (dec_retune st) = d_data st /\ d_parity (dec_retune st) = d_parity st /\
+   d_size (dec_retune st) = d_size st /\ d_paws (dec_retune st) = d_paws st /\ d_sets (dec_retune st) = d_sets st)
+  \/ (has_cfg (dec_retune st) d p /\ d_should (dec_retune st) = false /\ d_sets (dec_retune st) = []).
+Proof.
+  intros Hd Hp Hall. unfold dec_retune.
+  destruct ((0 <? find_period (d_at st) true) && (0 <? find_period (d_at st) false) &&
+            (find_period (d_at st) true + find_period (d_at st) false <? 256)) eqn:E.
+  - apply andb_true_iff in E as [E _]. apply andb_true_iff in E as [E1 E2].
+    apply Z.ltb_lt in E1. apply Z.ltb_lt in E2.
+    pose proof (find_period_sound d p (d_at st) true _ Hd Hp Hall eq_refl E1) as H1.
+    pose proof (find_period_sound d p (d_at st) false _ Hd Hp Hall eq_refl E2) as H2.
+    simpl in H1, H2. rewrite H1, H2.
+    destruct (negb (d =? d_data st) || negb (p =? d_parity st)).
+    + right. unfold has_cfg; simpl. repeat split; reflexivity.
+    + left. simpl. repeat split; reflexivity.
+  - left. simpl. repeat split; reflexivity.
+Qed.
+
+(* COMPLETE: when the ring is exactly an in-order run of the sender that starts one id before a
+   group boundary and holds at least d+p+2 samples, the tuning step adopts d/p *)
+Lemma retune_complete d p s0 n st :
+  0 < d -> 0 < p -> d + p <= 255 -> 0 <= s0 -> s0 mod (d + p) = d + p - 1 ->
+  (Z.to_nat (d + p) + 2 <= n)%nat -> s0 + Z.of_nat n <= 4294967296 ->
+  at_window (d_at st) = run_pulses d p s0 n ->
+  d_size st = d_data st + d_parity st -> d_paws st = paws_of (d_size st) ->
+  has_cfg (dec_retune st) d p /\ d_should (dec_retune st) = false.
+Proof.
+  intros Hd Hp Hs H0 Hal Hn Hr Hw Hsz Hpw.
+  destruct (find_period_complete d p s0 n (d_at st) Hd Hp H0 Hal Hn Hr Hw) as (H1 & H2).
+  unfold dec_retune. rewrite H1, H2.
+  destruct (0 <? d) eqn:E1; [|apply Z.ltb_ge in E1; lia].
+  destruct (0 <? p) eqn:E2; [|apply Z.ltb_ge in E2; lia].
+  destruct (d + p <? 256) eqn:E3; [|apply Z.ltb_ge in E3; lia]. simpl andb. cbv iota.
+  destruct (negb (d =? d_data st) || negb (p =? d_parity st)) eqn:E.
+  - unfold has_cfg; simpl. repeat split; reflexivity.
+  - apply orb_false_iff in E as [Ea Eb]. apply negb_false_iff in Ea. apply negb_false_iff in Eb.
+    apply Z.eqb_eq in Ea. apply Z.eqb_eq in Eb.
+    unfold has_cfg; simpl. rewrite Hpw, Hsz, <- Ea, <- Eb. repeat split; reflexivity.
+Qed.
+
+(* what a recovered shard can contribute to the ARQ core: only if its own size field fits *)
+Lemma strip_rec_spec r :
+  strip_rec r = [] \/
+  exists sz, sz = rd16 r /\ 2 <= sz <= blen r /\
+    strip_rec r = [(firstn (Z.to_nat (sz - 2)) (skipn 2 r), c_IKCP_PACKET_FEC)].
+Proof.
+  unfold strip_rec. destruct (2 <=? blen r) eqn:E1; [|left; reflexivity].
+  destruct ((rd16 r <=? blen r) && (2 <=? rd16 r)) eqn:E2; [|left; reflexivity].
+  apply andb_true_iff in E2 as [Ea Eb]. apply Z.leb_le in Ea. apply Z.leb_le in Eb.
+  right. exists (rd16 r). split; [reflexivity|]. split; [lia|reflexivity].
+Qed.
